@@ -463,11 +463,11 @@ class Sim:
 
     def _cmd_kind(self, ctx) -> str:
         key = ctx.cmd_key
-        if isinstance(key, str):
-            return key
         from cylc.flow.subprocctx import SubFuncContext
         if isinstance(ctx, SubFuncContext):
             return 'xtrigger'
+        if isinstance(key, str):
+            return key
         return type(key).__name__ if not isinstance(key, tuple) else 'event-handler'
 
     def on_launch(self, it) -> bool:
